@@ -951,7 +951,7 @@ func (s *rstate) eval(e gen.Expr) (interface{}, error) {
 
 func nonNegInt(v interface{}) int {
 	f := Num(v)
-	if !isInt(f) || f < 0 || f > 1<<31 {
+	if !isInt(f) || f < 0 || f > 1<<53 {
 		oor("bitwise operand %v", v)
 	}
 	return int(f)
